@@ -309,10 +309,17 @@ def diff_component(ctx, component, gen_args, classify, label=None, shrink=True, 
             ctx.count(f"{label}.{op.split(' ')[0]}")
             if "err" in iout.split(" ")[0]:
                 ctx.count(f"{label}.errors")
-            if iout != mout:
+            base = iout.split(" ORACLE[", 1)[0]
+            if base != iout:
+                # an independent oracle of the harness fired: reported on its own, the comparison goes on
+                ctx.count(f"{label}.oracle-hits")
                 key = classify(c, i, iout, mout)
                 if key not in bad:
                     bad[key] = (c, i, iout, mout)
+            if base != mout:
+                key = classify(c, i, base, mout)
+                if key not in bad:
+                    bad[key] = (c, i, base, mout)
                 break
         k += len(c)
     if cases and len(ctx.samples) < 6:
@@ -324,7 +331,11 @@ def diff_component(ctx, component, gen_args, classify, label=None, shrink=True, 
         if shrink:
             ops = shrink_case(component, ops, lambda c2, i2, io, mo: classify(c2, i2, io, mo) == key)
         impl_lines, model_lines = replay_case(component, ops)
-        what = f"{component}: implementation and proved model differ after `{ops[-1]}`: impl `{impl_lines[-1] if impl_lines else '?'}` vs model `{model_lines[-1] if model_lines else '?'}`"
+        if "ORACLE[" in iout:
+            # implementation-vs-oracle failure: reported apart from model disagreements
+            what = f"{component}: the implementation fails the harness oracle after `{ops[-1]}`: {iout.split('ORACLE[', 1)[1].rstrip(']')}"
+        else:
+            what = f"{component}: implementation and proved model differ after `{ops[-1]}`: impl `{impl_lines[-1] if impl_lines else '?'}` vs model `{model_lines[-1] if model_lines else '?'}`"
         ctx.violation(f"{label}:{key}", what, dict(engine="seqdiff", component=component, ops=ops,
                       impl=impl_lines, model=model_lines))
     return len(bad)
@@ -338,16 +349,28 @@ def replay_case(component, ops):
     return impl, model
 
 
-def first_mismatch(component, ops):
+def mismatches(component, ops):
+    """all points of a replay where something is reported: oracle hits (the comparison goes on) and
+    the first line where implementation and model differ (the comparison stops)"""
     impl, model = replay_case(component, ops)
+    res = []
     for i in range(len(ops)):
         io = impl[i] if i < len(impl) else "<none>"
         mo = model[i] if i < len(model) else "<none>"
-        if io != mo:
-            return i, io, mo
+        base = io.split(" ORACLE[", 1)[0]
+        if base != io:
+            res.append((i, io, mo))
+        if base != mo:
+            res.append((i, base, mo))
+            break
         if io == "PANIC":
-            return None
-    return None
+            break
+    return res
+
+
+def first_mismatch(component, ops):
+    r = mismatches(component, ops)
+    return r[0] if r else None
 
 
 def shrink_case(component, ops, same_class, budget=150):
@@ -358,22 +381,21 @@ def shrink_case(component, ops, same_class, budget=150):
     def fails(cand):
         nonlocal tries
         tries += 1
-        fm = first_mismatch(component, cand)
-        if fm is None:
-            return False
-        i, io, mo = fm
         c = [(o, "") for o in cand]
-        return same_class(c, i, io, mo)
+        for (i, io, mo) in mismatches(component, cand):
+            if same_class(c, i, io, mo):
+                return i
+        return None
     while len(cur) > 2 and tries < budget:
         body = cur[1:]
         chunk = max(1, len(body) // n)
         reduced = False
         for s in range(0, len(body), chunk):
             cand = [cur[0]] + body[:s] + body[s + chunk:]
-            if len(cand) >= 2 and fails(cand):
+            at = fails(cand) if len(cand) >= 2 else None
+            if at is not None:
                 # cut after the mismatch
-                fm = first_mismatch(component, cand)
-                cur = cand[: fm[0] + 1] if fm else cand
+                cur = cand[: at + 1]
                 n = max(n - 1, 2)
                 reduced = True
                 break
